@@ -64,7 +64,7 @@ def setup():
 
 def budget(tier):
     return {'quick': dict(seconds=60, cases=2400, shrink_s=15, search_s=5),
-            'thorough': dict(seconds=420, cases=20000, shrink_s=40, search_s=20)}[tier]
+            'thorough': dict(seconds=420, cases=120000, shrink_s=40, search_s=20)}[tier]
 
 
 # --------------------------------------------------------------------------
